@@ -6,3 +6,7 @@ check('C01', 'runtime monitor: controlled (baton) scheduler with scheduling poin
       'Held on every schedule executed: all interleavings (token-fetch granularity) of every ordered pair of a 12-text pool of valid/invalid texts on one shared engine (incl. engine.copy and per-call options access paths), random 2-3 thread schedules over long texts, histories with repeats, module-level yaql.eval cache, free-running threads. Between two token fetches threads are atomic in the controlled mode.',
       'Baseline is a freshly created engine per distinct text; interleavings finer than token fetches are only sampled by the free-running mode.',
       'DESIGN.md 2/C01')
+check('C02', 'runtime monitor: reference-model oracle (independent precedence-climbing parser driven only by the operator table) compared with the tree built by the real parser, over exhaustive short and random long token sequences and tables built through insert_operator',
+      'Held on every sequence executed: default table exhaustively for <=2 (quick) / <=3 (thorough) binary operators x <=2 prefix placements, random sequences with up to 12 operators incl. calls, lists, maps, index expressions, mapping rules, skipped slots and random whitespace; legacy table; custom homogeneous tables from 1-4 insert_operator calls.',
+      'The model parser and the generator share the token vocabulary; tables whose groups are not homogeneous are excluded as the property states.',
+      'DESIGN.md 2/C02')
